@@ -120,6 +120,12 @@ def gen(ctx):
                                     (32, 1.0, 6.5), (64, 1.0, 8.0), (48, 1.0, 7.0),
                                     # odd sizes: the zero-energy bin is an integer row (the 4-point stencil switches sides there)
                                     (65, 1.0, 7.0), (49, 1.0, 6.5), (33, 1.0, 6.5), (65, 2.0, 13.0)])
+        if i in (0, 8):
+            # always one even and one odd grid with a NARROW start (damping + diffusion, 3-point stencil): the start data is exactly 0
+            # in the columns beyond 6.4*zoom = 3.2 sigma, which the relaxed bunch occupies.  The harness wires the grids as main()
+            # does (copies of the start grid, only grid_t1's profile refreshed), so a step that consults anything cached from
+            # the start (stale profile, support mask) leaves the recurrence here (seed C04-G)
+            n, zoom, half = (64, 0.5, 7.0) if i == 0 else (65, 0.5, 7.0)
         it = rng.choice([3, 4])
         P = rng.choice([24, 32, 48, 64])
         e1 = rng.choice([0.01, 0.02, 1.0 / 64, 0.03] if q else [0.01, 0.02, 1.0 / 64, 0.03, 0.005])
@@ -340,6 +346,7 @@ def fp_only(ctx, dis):
         ctx.count("fp3-iter:%s" % fc.VARIANTS[v])
     res = fc.run_cases(ctx, cases)
     for c in cases:
+        fc.oracle_cache_independent(ctx, c, res[c.cid])
         dd = fc.compare_case(c, res[c.cid])
         if dd:
             dis.append(dict(case=c.replay(), detail=dd[:3], sig=dict(kind="fp", stage="correspondence", dt=3, variant=fc.VARIANTS[c.v])))
@@ -428,6 +435,9 @@ def program_level(ctx):
     import scaling_cases as sc
     tg = ctx.build(harness=("impl_fp", "h5cat"), want_binary=True)
     sc.run_moments(ctx, tg, sc.c04_cases(ctx, ctx.quick()), dict(kind="program"))
+    # relaxation runs from narrow ... wide starts: stationary, limit independent of the start, limit = proved fixed point
+    import c04_limits
+    c04_limits.run(ctx, tg, c04_limits.cases(ctx, ctx.quick()), dict(kind="program"))
 
 
 def run(ctx):
@@ -435,7 +445,10 @@ def run(ctx):
                 "24..64 steps per synchrotron period, e1 0.005..0.03, 8-12 damping times (full), RFKickMap(linear)+DriftMap+FokkerPlanckMap "
                 "iterated through the repo's API; raw second moments every step vs the exact recurrence of Model/Moments2.v (first 8 steps "
                 "through the extracted Gallina function, then its Python copy), J per step, stroboscopic spreads, fixed point, unit width. "
-                "fp3-iter cases: three 3-point steps on the grid vs the exact model and vs C04.1. Non-trivial: all evo cases; fp columns with variant != none.")
+                "fp3-iter cases: three 3-point steps on the grid vs the exact model and vs C04.1. Non-trivial: all evo cases; fp columns with variant != none. "
+                "evo harness wired as main() (grid_t2/grid_t3 copies of the start grid, only grid_t1's profile refreshed); two evo cases always start narrow "
+                "(start data exactly 0 beyond 3.2 sigma). Program level: relaxation runs of one configuration from InitialDistZoom 0.2 ... 1.5 (40 periods >= 10 "
+                "damping times): stationary, limit independent of the start (2e-4), limit = fixed point of the recurrence (3-point) / 1 +- 0.05 (4-point).")
     coq = vp_coq.full_check("C04", ctx, fams=("fp",))
     dis = []
     fp_only(ctx, dis)
@@ -453,6 +466,10 @@ def run(ctx):
     ctx.assumptions += ["exact-arithmetic model; float accumulation over hundreds of steps handled by a relative tolerance (2e-4 of the moment scale)",
                         "the link 'RF kick and drift transport second moments as the recurrence says' is checked on the implementation only (no theorem yet)",
                         "4-point stencil with damping: compared with the 3-point recurrence within 4 % (switch-row defect, C01.5)"]
+    narrow_ok = all(k in ctx.extra.get("worst_relative_moment_error", {}) for k in ("e0", "e8"))
+    lim = ctx.extra.get("limit_spread_over_starts") or []
+    coq = fc.fploop_downgrade(ctx, coq, dis, narrow_ok and len(lim) >= 4,
+                              "fp3-iter grids, cache-independence probe, narrow-start evolutions wired as main(), relaxation runs from zoom 0.2 ... 1.5")
     conclude(ctx, coq, dis)
 
 
@@ -468,5 +485,16 @@ def replay(ctx, rp):
             shutil.rmtree(work, ignore_errors=True)
         ctx.case_done(("program-moments", "replay"), True)
         ctx.rule = "replay of one recorded program-level case"
+        return
+    if c.get("kind") == "program-limits":
+        import c04_limits, tempfile, shutil
+        tg = ctx.build(harness=("impl_fp", "h5cat"), want_binary=True)
+        work = tempfile.mkdtemp(prefix="plim-")
+        try:
+            c04_limits.run_group(ctx, tg, work, {k: v for k, v in c.items() if k not in ("failing_zoom", "command")}, dict(kind="program"))
+        finally:
+            shutil.rmtree(work, ignore_errors=True)
+        ctx.case_done(("program-limits", "replay"), True)
+        ctx.rule = "replay of one recorded group of relaxation runs (same configuration, several starts)"
         return
     run(ctx)
